@@ -723,7 +723,8 @@ class Interp:
                         "table-key", "KeyError", node,
                         "key(s) {} not in table {}".format(bad[:4], base.name))))
                 if good:
-                    if any(isinstance(d[k], e1.Opaque) and d[k].kind == "instance" for k in good):
+                    if any((isinstance(d[k], e1.Opaque) and d[k].kind == "instance") or isinstance(d[k], e1.NTValue)
+                           for k in good) and len(good) <= 12:
                         # a table of module-level instances: one path per key, the instance as a
                         # shared (pre-existing) object
                         first = True
